@@ -4,7 +4,7 @@
    declared domain.  <Rule>_points / <Rule>_weights are re-translated from the constructor source on every run. *)
 From Coq Require Import Reals Arith.
 From Coquelicot Require Import Coquelicot.
-From P Require Import C01_gen C01_model C01_proofs_tref C01_proofs_assemble.
+From P Require Import C01_gen C01_model C01_proofs_subst C01_proofs_tref.
 Open Scope R_scope.
 
 Theorem subst_rules_SingleExp : forall h n k, 0 < h ->
